@@ -190,6 +190,38 @@ def run_shard(spec, acc):
                 acc.count("nonsense_messages_offered_to_the_shared_encoder")
                 if k_ >= 5:
                     break
+            # ... and messages with TWO things wrong, in definition order: a value that is finite but far outside the field's range,
+            # a field missing, a field of the wrong type - every pair of kinds on a few pairs of fields
+            cand = [fd for fd in d.fields if fd.match is None and any(x.id == fd.id for x in m_bad.fields)]
+
+            def spoil(msg_, fd_, kind_):
+                lb_ = next((x for x in msg_.fields if x.id == fd_.id), None)
+                if lb_ is None:
+                    return
+                if kind_ == "too_large":
+                    lb_.value = lb_.raw_value = 10 ** 30
+                elif kind_ == "negative":
+                    lb_.value = lb_.raw_value = -(10 ** 30)
+                elif kind_ == "missing":
+                    msg_.fields = [x for x in msg_.fields if x.id != fd_.id]
+                else:
+                    lb_.value, lb_.raw_value = ["not", "a", "value"], None
+            kinds_ = ("too_large", "negative", "missing", "wrong_type")
+            pairs_ = [(a_, b_) for a_ in range(len(cand)) for b_ in range(a_ + 1, len(cand))]
+            for a_, b_ in (pairs_[:2] + pairs_[-2:])[:4]:
+                for k1 in kinds_:
+                    for k2 in kinds_:
+                        mb = _copy.deepcopy(m_bad)
+                        spoil(mb, cand[a_], k1)
+                        spoil(mb, cand[b_], k2)
+                        try:
+                            enc.encode_actisense(mb)
+                        except Exception:  # noqa: BLE001
+                            pass
+                        acc.count("nonsense_messages_offered_to_the_shared_encoder")
+                        acc.count("nonsense_messages_with_two_defects")
+                        # right away a good message: the refusal has left nothing behind
+                        roundtrip(dbx, dec, enc, d, dbx.pack(d, base), nb, acc, f"base after a message refused for {k1}+{k2}")
         roundtrip(dbx, dec, enc, d, dbx.pack(d, base), nb, acc, "base")
         for f in fields:
             for name, u, inr in gen.field_classes(f, rng, 3 if quick else 20, dbx):
